@@ -6,10 +6,12 @@
    (C19_field_truncated), and a packed message cut at any offset is reported against exactly the element - MTI,
    bitmap or data element - that owns the byte at that offset (C19_message_truncated), for every coherent
    specification and every message of the domain, with auto-expanding and fixed bitmaps alike; that the path continues
-   with subfield tags inside composites, following the specification at every depth, is C19_nested_path. Typing (PackError /
+   with subfield tags inside composites, following the specification at every depth, is C19_nested_path. The elements that precede the failing one remain
+   readable: after the failing Unpack of a cut message the object holds the MTI and every data element before the owner
+   of the cut, populated, with a state equivalent to what was packed (C19_message_truncated_readable). Typing (PackError /
    UnpackError, raw message) is glue outside the model and checked by the oracle on the library. *)
 From Iso Require Import Model.Base Model.Padding Model.Encoding Model.Prefix Model.Bitmap Model.Spec Model.Field Model.Message
-     Proofs.BaseLemmas Proofs.FieldProofs Proofs.MessageProofs Proofs.CompositeProofs Proofs.PathProofs Proofs.MessageRoundtrip Proofs.CoherenceCheck Proofs.TruncationProofs.
+     Proofs.BaseLemmas Proofs.FieldProofs Proofs.MessageProofs Proofs.CompositeProofs Proofs.PathProofs Proofs.MessageRoundtrip Proofs.CoherenceCheck Proofs.TruncationProofs Proofs.TruncationReadable.
 From Coq Require Import Lia.
 
 Theorem C19_error_has_owner : forall S m src m' path e, m_unpack S m src = (m', UErr path e) ->
@@ -62,6 +64,19 @@ Theorem C19_message_truncated : forall S m m' b, msg_coherent S -> msg_in_dom S 
          else zmem k (m_present m') = true /\ exists s st, zlookup k (ms_fields S) = Some s /\ zlookup k (m_fields m') = Some st /\ pack_f s st = Ok part).
 Proof. exact message_truncated. Qed.
 Print Assumptions C19_message_truncated.
+
+(* the elements that precede the failing one remain readable: after the failing Unpack of the cut message the object
+   holds the MTI of the packed message (when the failure is not in the MTI itself) and every data element j < k of the
+   packed message, populated, with a state equivalent to the one that was packed *)
+Theorem C19_message_truncated_readable : forall S m m' b, msg_coherent S -> msg_in_dom S m -> m_pack S m = (m', Ok b) ->
+  forall m0 o, msg_shaped S m0 -> 0 <= o < zlen b ->
+    exists k e, snd (m_unpack S m0 (ztake o b)) = UErr [itoa k] e /\ owns S m' b o k /\
+      let r := fst (m_unpack S m0 (ztake o b)) in
+      (1 <= k -> m_mti r = m_mti m' /\ zmem 0 (m_present r) = true) /\
+      (forall j, 2 <= j < k -> zmem j (m_present m') = true ->
+         zmem j (m_present r) = true /\ exists s st st', zlookup j (ms_fields S) = Some s /\ zlookup j (m_fields m') = Some st /\ zlookup j (m_fields r) = Some st' /\ equiv s st st').
+Proof. exact message_truncated_readable. Qed.
+Print Assumptions C19_message_truncated_readable.
 
 (* the hypotheses are satisfiable: ms_ex is coherent, a message with elements 2 and 3 is in the domain and packs, and
    the fresh message is shaped *)
